@@ -164,6 +164,14 @@ def compare_step(ex, prog, ref_state: refvm.RefState, case, part, label: str, tr
     mn = prog[vm.pc][0] if vm.pc < len(prog) and kind not in ("done", "horizon") else (prog[0][0] if prog else "-")
     if kind in ("unspecified", "unsupported"):
         count(part, "class/unspecified")
+        # whether the executor faults here is left open - but IF it faults, the fault must name the instruction that the
+        # reference stopped at (a fault without a line, or with another line, is not a precise fault)
+        if kind == "unspecified" and st[0] == "fault" and vm.pc < len(prog) and real_trace[:len(vm.trace)] == vm.trace:
+            if st[1] != vm.pc:
+                add_violation(part, f"fault-line/{mn}", f"fault reported at line {st[1]}, the faulting instruction is line {vm.pc} "
+                              "(outcome otherwise unspecified)", case, {"message": st[2], "ref_trace": vm.trace, "real_trace": real_trace})
+            else:
+                count(part, "unspecified-fault-line-ok")
         return "unspecified", None
     if kind == "horizon":
         count(part, "class/horizon")
@@ -358,6 +366,11 @@ def regfile_shard(shard):
             [("set", [a, 1]), ("set", [b, 1]), ("beq", [a, b, 5]), ("set", [a, 5]), ("set", [b, 6]), ("blt", [a, b, 7]), ("set", [a, 8]),
              ("bnz", [a, 9]), ("set", [b, 3])],
         ]
+        if b == a and (bank, idx) not in (("R", 0), ("R", 1), ("C", 0), ("Q", 0)):
+            # the register was never written: whatever the executor does with it as an operand, a fault must name its line
+            progs += [[("set", [R(0), 1]), (mn, ops)] for mn, ops in (
+                ("add", [R(0), a, R(0)]), ("sub", [R(0), R(0), a]), ("addm", [R(0), R(0), R(0), a]), ("array", [a, ("addr", 3)]),
+                ("store", [a, ("entry", 0, R(0))]), ("beq", [a, R(0), 0]), ("bnz", [a, 0]), ("ret_reg", [a]), ("qalloc", [a]))]
         for prog in progs:
             ex = fresh_executor()
             run_real(ex, SETUP)
